@@ -23,6 +23,8 @@ def main():
             res = {"_driver_error": "%s: %s" % (type(ex).__name__, ex), "tb": traceback.format_exc()[-3000:]}
         out.write("@@RESULT " + json.dumps(res) + "\n")
         out.flush()
+        if getattr(mod, "EXIT_AFTER", False):    # the driver asks for a fresh process
+            return
 
 
 if __name__ == "__main__":
